@@ -39,6 +39,7 @@ func runC20(c *core.Ctx) core.Meta {
 	pkgs = append(pkgs, "nvidia/tracereader", "nvidia/nvidiaconfig")
 	c.Load(pkgs...)
 	c.BuildSSA()
+	checkFreeListFilledOnce(c, "R20.16", "The engine then runs dry with kernels unfinished and fewer warps executed than the trace holds.", 2, NewPkgInfo(c, "nvidia/gpu"), NewPkgInfo(c, "nvidia/sm"), NewPkgInfo(c, "nvidia/driver"))
 	// R20.13 messages are not reused between Sends (fresh.go)
 	checkMessagesFresh(c, "R20.13", []string{"nvidia/subcore", "nvidia/sm", "nvidia/gpu", "nvidia/driver"}, 6)
 	c.BuildSSA()
